@@ -594,7 +594,12 @@ func unwrapCallback(f metric.Callback) metric.Callback {
 }
 
 func (c *registration) setDelegate(m metric.Meter) {
-	c.unregMu.Lock()
+	// The caller holds the meter lock. An Unregister in progress holds unregMu
+	// and waits for that meter lock: do not wait for it (deadlock), the
+	// registration is being removed and must not be delegated anyway.
+	if !c.unregMu.TryLock() {
+		return
+	}
 	defer c.unregMu.Unlock()
 
 	if c.unreg == nil {
